@@ -130,5 +130,68 @@ fn main() {
                 t.name, t.msg, diags.iter().map(|d| (d.message.clone(), d.range.clone())).collect::<Vec<_>>(), j.src));
         }
     }
+    // ---- end-of-input family: the file ends exactly where more input is required, and its last
+    //      character is ASCII / 2-byte / 3-byte / 4-byte, with and without a trailing newline.  Errors
+    //      raised after the parser has stepped past the lexer's Eof token use `Parser::eof()`'s position.
+    const TRUNC: [&str; 34] = ["fn", "type", "use", "interface", "implement", "extend", "let", "var", "let t = s.", "s.", "use a/",
+        "fn f(", "fn f(x:", "fn f(x) ->", "type T =", "type T = {", "type T = | A |", "let a:", "let a =", "let a = 1 +", "let a = -", "let a = not",
+        "let a = [1,", "let a = f(1,", "let a = (", "match x {", "match x { 1 ->", "for", "for i in", "if", "while", "interface I {", "implement I for", "x = "];
+    const LAST: [(&str, &str); 4] = [("ascii", "z"), ("2-byte", "é"), ("3-byte", "語"), ("4-byte", "🦀")];
+    struct EJob { src: String, code_end: usize, what: String }
+    let mut ejobs: Vec<EJob> = vec![];
+    for (ti, t) in TRUNC.iter().enumerate() {
+        for (lname, last) in LAST {
+            for style in 0..4 {
+                for nl in [false, true] {
+                    let mut src = String::new();
+                    if (ti + style) % 3 == 0 { src.push_str(FILLER[(ti * 7 + style) % FILLER.len()]); }
+                    src.push_str(t);
+                    let code_end = src.len();
+                    match style {
+                        0 => { src.push_str(" // caf"); src.push_str(last); }
+                        1 => { src.push_str("// "); src.push_str(last); }
+                        2 => { src.push_str(" /* 日本語 */ //"); src.push_str(last); }
+                        _ => { src.push_str("\n\n  // x"); src.push_str(last); }
+                    }
+                    if nl { src.push('\n'); }
+                    ejobs.push(EJob { src, code_end, what: format!("eof:{t}|last={lname}|style={style}|nl={nl}") });
+                }
+            }
+        }
+    }
+    let eresults = par_map(&ejobs, |j| (diagnostics(&j.src), impl_lex(&j.src, true)));
+    for (j, (diags, lexed)) in ejobs.iter().zip(eresults) {
+        ctx.count("family:end-of-input");
+        ctx.case(format!("lex {} #end-of-input", hex_str(&j.src)), lexed);
+        let diags = match diags {
+            Ok(d) => d,
+            Err(p) => { ctx.spec_fail(format!("{}: analysis panicked ({p}) on {:?}", j.what, j.src)); continue; }
+        };
+        let len = j.src.len();
+        let last_start = j.src.char_indices().next_back().map_or(0, |(i, _)| i);
+        for d in &diags {
+            if d.file != 0 { continue; }
+            let mut all = vec![("primary", d.range.clone())];
+            for (f, r) in &d.secondary { if *f == 0 { all.push(("secondary", r.clone())); } }
+            for (which, r) in all {
+                if let Err(why) = range_ok(&j.src, &r) {
+                    ctx.spec_fail(format!("{}: diagnostic {:?}: {which} range {why}; source {:?}", j.what, d.message, j.src));
+                    continue;
+                }
+                // a diagnostic located behind the code (in the trailing comment / at the end of input)
+                // can only mean "end of input": the end of the text or its last character
+                // (a line break between the code and the comment is a token of its own)
+                if which == "primary" && r.start > j.code_end && &j.src[r.clone()] != "\n" {
+                    ctx.count("eof-diagnostic");
+                    let ok = (r.start == len || r.start == last_start) && (r.end == r.start || r.end == len);
+                    if !ok {
+                        ctx.spec_fail(format!("{}: diagnostic {:?} at {:?} lies in the trailing comment, neither at the end of input ({len}) nor on its last character ({last_start}); source {:?}",
+                            j.what, d.message, r, j.src));
+                    }
+                }
+            }
+        }
+        if diags.is_empty() { ctx.count("eof:no-diagnostic"); }
+    }
     ctx.finish();
 }
